@@ -13,6 +13,7 @@
 //!   --prim 'SIG=term'     a function / constant taken as given: `T::f(A, B) -> R`, `T::f(self, A) -> R`, `T::C: R`; `_` = identity;
 //!                         `T::f(&mut self, A) -> R`: the Lean function returns `(new receiver, result)`; `-> Outcome<R>`: it can panic;
 //!                         `::Name(T) -> R`: a tuple-struct constructor
+//!   --transparent S       the one-field struct `S` is represented by its field (its Lean type is given by --type)
 //!   --struct S            emit a Lean structure for the struct `S` of the file (PhantomData fields dropped)
 //! a function name may be `Type::name` (a method of another impl of the same file; emitted as `Type.name`)
 use rs2lean::{translate, Options};
@@ -47,7 +48,8 @@ fn main() -> ExitCode {
                 "open" => o.opens.push(v),
                 "label" => o.source_label = v,
                 "struct" => o.structs.push(v),
-                "prim" => match v.rsplit_once('=') {
+                "transparent" => o.transparent.push(v),
+                "prim" => match v.split_once('=') {
                     Some((a, b)) => o.prims.push((a.trim().to_string(), b.trim().to_string())),
                     None => {
                         eprintln!("rs2lean: --prim expects SIG=term, got `{v}`");
